@@ -126,6 +126,7 @@ func init() {
 		"(*os.File).WriteAt":                      fsWriteAt,
 		"(*os.File).ReadAt":                       fsReadAt,
 		glowPath + ".SendUDPReport":               sendUDPReport,
+		"(*" + modulePath + "/server.zipArchiveWriter).AddFile": arcAddFile,
 		"(*os.File).WriteString":                  fsWrite,
 		"os.WriteFile":                            fsWriteFile,
 		"io/ioutil.WriteFile":                     fsWriteFile,
@@ -141,7 +142,7 @@ func init() {
 		"(*bufio.Scanner).Text":                   scannerText,
 	}
 	externalModels = map[string]intrinsic{
-		"os.Open":                            valOrErr,
+		"os.Open":                            fsOpenRO,
 		"os.Stat":                            valOrErr,
 		"(*os.File).Stat":                    valOrErr,
 		"net.Dial":                           valOrErr,
